@@ -433,10 +433,14 @@ def r04_5(ctx: Ctx) -> None:
                 for x in ast.walk(cd):
                     if isinstance(x, ast.Name) and x.id in uw.params and pol:
                         gate_params.add(x.id)
+    # a gate that is (re)computed from another parameter (`if crc_defined is None: crc_defined = [write_crcs and ...]`) is switched by that one too
+    for g_ in list(gate_params):
+        for v in q.assigned_values(uw, g_):
+            gate_params |= {x.id for x in ast.walk(v) if isinstance(x, ast.Name) and x.id in uw.params}
     if folder_path and gate_params:
         hw = ctx.prog.func("archiveinfo", "HeaderStreamsInfo.write")
         calls = [c for c in q.calls(hw) if norm(c.func).endswith("unpackinfo.write")]
-        on = bool(calls) and all(any(k.arg in gate_params and isinstance(k.value, ast.Constant) and k.value.value is True for k in c.keywords) for c in calls)
+        on = bool(calls) and all(any(k.arg in gate_params and not (isinstance(k.value, ast.Constant) and k.value.value in (False, None)) for k in c.keywords) for c in calls)
         folder_path = on
     # pack-stream digest path: crcs set, digestdefined set, enable_digests not forced False
     sets_crcs = [n for n in walk(f.node) if isinstance(n, ast.Assign) and any(isinstance(t, ast.Attribute) and t.attr == "crcs" for t in n.targets)]
